@@ -1,8 +1,47 @@
-(* C19 - Definitions outside the dependency closure cannot influence the result. Statements only. *)
+(* C19 - Definitions outside the dependency closure cannot influence the result. Statements only.
+   Model: Namespace/Reader.v, Listing.v - the text of a definition is a function `txt` of the file id that the model
+   consults only when the implementation opens the file.  Proofs: Namespace/Closure.v, ClosureRun.v, Scope.v. *)
 From Coq Require Import ZArith List Bool.
-From PV Require Import Namespace.Reader Namespace.ReaderProofs Namespace.Listing Namespace.ListingProofs.
+From PV Require Import Namespace.Reader Namespace.ReaderProofs Namespace.ReadPure Namespace.Listing Namespace.ListingProofs
+                       Namespace.Closure Namespace.ClosureRun Namespace.Scope.
 Import ListNotations.
 Open Scope Z_scope.
+
+(* closure = the targets and, transitively, every lookup whose lower-cased name and version match a reference
+   written in a member.  Two assignments of texts that agree on the closure give the same outcome of
+   _complete_read_function: the same types or the same error, the same calls of the print handler, the same set
+   of opened files. *)
+Theorem C19_noninterference : forall txt txt' L T,
+  (forall d, reach txt L T d -> txt (mfile d) = txt' (mfile d)) ->
+  complete_read txt T L = complete_read txt' T L.
+Proof. exact complete_read_agree. Qed.
+Print Assumptions C19_noninterference.
+
+(* the same for read_namespace / read_files on a directory tree: only the file NAMES of everything else matter *)
+Theorem C19_noninterference_api : forall txt txt' files q,
+  (forall targets L, call_lists files q = Some (targets, L) ->
+     forall d, reach txt L targets d -> txt (mfile d) = txt' (mfile d)) ->
+  run_query txt files q = run_query txt' files q.
+Proof. exact run_query_agree. Qed.
+Print Assumptions C19_noninterference_api.
+
+(* no file outside the closure is opened and the handler is never called for a directive outside the closure *)
+Theorem C19_opened_in_closure : forall txt L T out, complete_read txt T L = Ok out ->
+  (forall f, In f (oopened out) -> exists x, reach txt L T x /\ mfile x = f) /\
+  (forall h f l, In (h, f, l) (odeliv out) -> exists x, reach txt L T x /\ mfile x = f).
+Proof. exact complete_read_opened. Qed.
+Print Assumptions C19_opened_in_closure.
+
+(* The cross-definition checks see direct (port-IDs) and transitive + direct (minor versions) only: lookup
+   definitions (all those with file ef) that are no candidates for any reference of the closure can be removed
+   from / added to the lookup list without changing the outcome, whatever their version, port-ID or text. *)
+Theorem C19_checks_scope : forall txt L T ef,
+  (forall d, reach txt (drop ef L) T d -> forall n a b arr, In (Ref n a b arr) (txt (mfile d)) ->
+     forall y, In y L -> mfile y = ef -> cand (complete d n) a b y = false) ->
+  (forall d, In d T -> mfile d <> ef) ->
+  complete_read txt T L = complete_read txt T (drop ef L).
+Proof. exact complete_read_drop. Qed.
+Print Assumptions C19_checks_scope.
 
 (* Only a malformed file NAME under a listed directory is reported, whatever the texts are (the listing does not
    take the texts as an argument at all) *)
@@ -11,3 +50,19 @@ Theorem C19_names_matter : forall roots files r f,
   listing roots files = Err EFileName.
 Proof. exact listing_bad_name. Qed.
 Print Assumptions C19_names_matter.
+
+(* non-vacuity: target A refers to lk.L.1.0; the unreferenced lookup lk.Unused.1.0 (file 3) is outside the closure, so
+   two texts that differ there (a valid definition / a fault / a print) give the same outcome; file 3 is not opened *)
+Definition nv_A := mkMeta [110; 115] [65] 1 0 (Some 7000) 0.
+Definition nv_L := mkMeta [108; 107] [76] 1 0 None 2.
+Definition nv_U := mkMeta [108; 107] [85] 1 0 (Some 7000) 3.
+Definition nv_lookups := [nv_L; nv_U; nv_A].
+Definition nv_txt (bad : list item) (f : Z) : list item :=
+  if f =? 0 then [Ref [108; 107; 46; 76] 1 0 0; Print] else if f =? 2 then [Print; Plain 8] else bad.
+Example C19_nonvacuous :
+  complete_read (nv_txt [Plain 8]) [nv_A] nv_lookups = complete_read (nv_txt [Fault; Print]) [nv_A] nv_lookups /\
+  exists out, complete_read (nv_txt [Fault; Print]) [nv_A] nv_lookups = Ok out /\ oopened out = [0; 2] /\
+              odeliv out = [(0, 2, 1); (0, 0, 2)].
+Proof.
+  split; [vm_compute; reflexivity|]. eexists. split; [vm_compute; reflexivity|]. split; reflexivity.
+Qed.
